@@ -4,6 +4,8 @@ from core import Corr, Fail
 from props import waterlib, nitrolib, c02
 
 PROP_FILES = ["Prop_C07"]
+# Coq-Interval (used for the numeric bound of the Arrhenius constants at 60 degC) is taken as compiled by coqchk
+COQCHK_ADMIT = ["Interval.Tactic"]
 RULE = c02.RULE
 TRUSTED = c02.TRUSTED + ["residue / dead-root inputs to the pools are taken as given"]
 ASSUMPTIONS = ["pool non-negativity is proved under 0 <= kt <= 1 for the daily rate constants (oracle values); observed on every traced day",
